@@ -88,6 +88,60 @@ class _ByteStream:
         return out
 
 
+class _FakeClock:
+    """Swaps datetime.datetime/date, argument-less time.localtime/gmtime/strftime/ctime and the host name for
+    values derived from the plan's clock/host knobs (negative controls: netconan reads none of them today)."""
+
+    def __init__(self, clock, host):
+        import datetime as _dt
+        import platform
+        import socket
+        self.mods = (_dt, platform, socket)
+        real_dt, real_date = _dt.datetime, _dt.date
+        base = float(clock)
+
+        class FakeDateTime(real_dt):
+            @classmethod
+            def now(cls, tz=None):
+                return real_dt.fromtimestamp(base, tz)
+
+            @classmethod
+            def utcnow(cls):
+                return real_dt.utcfromtimestamp(base) if hasattr(real_dt, "utcfromtimestamp") else real_dt.fromtimestamp(base)
+
+            @classmethod
+            def today(cls):
+                return real_dt.fromtimestamp(base)
+
+        class FakeDate(real_date):
+            @classmethod
+            def today(cls):
+                return real_date.fromtimestamp(base)
+
+        self.fake = {"datetime": FakeDateTime, "date": FakeDate}
+        self.real = {"datetime": real_dt, "date": real_date}
+        self.base = base
+        self.host = host
+
+    def install(self):
+        _dt, platform, socket = self.mods
+        _dt.datetime, _dt.date = self.fake["datetime"], self.fake["date"]
+        self.saved = (time.localtime, time.gmtime, time.strftime, time.ctime, platform.node, socket.gethostname)
+        lt, gt, sf, ct = self.saved[:4]
+        base = self.base
+        time.localtime = lambda secs=None: lt(base if secs is None else secs)
+        time.gmtime = lambda secs=None: gt(base if secs is None else secs)
+        time.strftime = lambda fmt, t=None: sf(fmt, lt(base) if t is None else t)
+        time.ctime = lambda secs=None: ct(base if secs is None else secs)
+        platform.node = lambda: self.host
+        socket.gethostname = lambda: self.host
+
+    def uninstall(self):
+        _dt, platform, socket = self.mods
+        _dt.datetime, _dt.date = self.real["datetime"], self.real["date"]
+        time.localtime, time.gmtime, time.strftime, time.ctime, platform.node, socket.gethostname = self.saved
+
+
 class LogCapture(logging.Handler):
     """Captures (level, formatted message, formatted traceback) at INFO and above."""
 
@@ -128,12 +182,17 @@ class SimProcess:
         for name in [n for n in sys.modules if n == "netconan" or n.startswith("netconan.")]:
             del sys.modules[name]
         importlib.invalidate_caches()
-        for name in _NETCONAN_MODS:
-            try:
-                importlib.import_module(name)
-            except ImportError:
-                if name in ("netconan.netconan", "netconan.anonymize_files"):
-                    raise
+        self._clock = _FakeClock(self.knobs.get("clock", 1_600_000_000), self.knobs.get("host", "sim-host"))
+        self._clock.install()        # `from datetime import datetime` at import time must bind the fake too
+        try:
+            for name in _NETCONAN_MODS:
+                try:
+                    importlib.import_module(name)
+                except ImportError:
+                    if name in ("netconan.netconan", "netconan.anonymize_files"):
+                        raise
+        finally:
+            self._clock.uninstall()
         self.modules = {n: m for n, m in sys.modules.items() if n == "netconan" or n.startswith("netconan.")}
         f = getattr(self.modules["netconan"], "__file__", "") or ""
         if not os.path.abspath(f).startswith(os.path.abspath(REPO) + os.sep):
@@ -216,6 +275,7 @@ class SimProcess:
         time.time = fake_time
         time.time_ns = lambda: int(fake_time() * 1e9)
         os.getpid = lambda: pid
+        self._clock.install()
         self._saved_env = None
         env = self.knobs.get("environ")
         if env:
@@ -224,6 +284,7 @@ class SimProcess:
         return self
 
     def __exit__(self, *a):
+        self._clock.uninstall()
         random._urandom, os.urandom, time.time, time.time_ns, os.getpid = self._saved_fns
         if self._saved_env:
             for k, v in self._saved_env.items():
